@@ -171,6 +171,7 @@ def gen_packages(run, n):
         fatal = getset and run.rng.random() < 0.03
         pkg = ctoracc.gen_acc_pkg(run.rng, name, p_exported_dir=0.5 if fatal else 0.0, **opts)
         add_json_tags(run.rng, pkg)
+        ctoracc.add_groups(run.rng, pkg, p=0.08)
         names = [sd["name"] for sd in pkg["structs"]]
         selected = list(names)
         if len(names) > 2 and run.rng.random() < 0.15:
@@ -246,7 +247,7 @@ def observe(run, shoot, accbin, modname, pkgs):
     mod = ctorlib.setup_module(run, modname)
     jobs = []
     for pkg in pkgs:
-        l2.write_files(mod / pkg["name"], ctorgen.render_go(pkg, modname))
+        l2.write_files(mod / pkg["name"], ctoracc.render_go(pkg, modname))
         pkg["args"] = shoot_args(pkg)
         jobs.append((pkg["name"], pkg["args"]))
     res = ctorlib.run_shoot_pkgs(shoot, mod, jobs)
@@ -291,7 +292,7 @@ def observe(run, shoot, accbin, modname, pkgs):
                 body += oracle_for_struct(pkg, sd, inst, key)
                 sd["_observed"] = True
         if body:
-            text = "".join(ctorgen.render_go(pkg, modname).values())
+            text = "".join(ctoracc.render_go(pkg, modname).values())
             bodies[pkg["name"]] = oracle_file(pkg, body, '"time"' in text, "/helper" in text, modname)
     for d, t in bodies.items():
         l2.write_files(mod / d, {"zz_oracle_verif.go": t})
@@ -361,7 +362,7 @@ def replay_record(pkg, obs, verdict, modname):
             "theorem": THEOREMS,
             "correspondence": "L2:C11:shadow struct, json.Marshal members, Unmarshal(Marshal v) vs Model/CtorJson.v",
             "spec": ctoracc.spec_json(pkg), "order": pkg["order"], "getset": pkg["getset"], "tagcase": pkg["tagcase"],
-            "sources": ctorgen.render_go(pkg, modname), "cmd": "shoot " + " ".join(pkg["args"]),
+            "sources": ctoracc.render_go(pkg, modname), "cmd": "shoot " + " ".join(pkg["args"]),
             "shoot": pkg.get("shoot"), "type_errors": pkg.get("type_errors"),
             "observed": [obs[(pkg["name"], t)] for t in pkg["order"] if (pkg["name"], t) in obs],
             "verdict": verdict,
@@ -647,7 +648,7 @@ def main(run):
     for i in (0, len(pkgs) // 2, len(pkgs) - 1):
         pkg = pkgs[i]
         samples.append({"package": pkg["name"], "cmd": "shoot " + " ".join(pkg["args"]),
-                        "source": "".join(ctorgen.render_go(pkg, "c11mod").values())[:1500],
+                        "source": "".join(ctoracc.render_go(pkg, "c11mod").values())[:1500],
                         "observed": [obs[(pkg["name"], t)] for t in pkg["order"][:2] if (pkg["name"], t) in obs],
                         "verdict": verdicts.get(i, 0)})
     vd = {}
@@ -712,6 +713,7 @@ def replay(run, path):
     shoot = run.build_shoot()
     accbin = run.build_helper("ctoracc")
     pkg = ctoracc.spec_from_json(r["spec"])
+    pkg["groups"] = r["spec"].get("groups") or []
     pkg["order"] = r["order"]
     pkg["rounds"] = 1
     pkg["getset"] = r["getset"]
